@@ -10,7 +10,7 @@ second operands: a fixed family of short lists / small ints; Hypothesis lists
 """
 from __future__ import annotations
 
-import itertools
+import copy, itertools
 import math
 from collections import Counter
 from fractions import Fraction
@@ -362,6 +362,15 @@ ITEM_LAWS = ["sort", "sort-is-permutation", "reverse", "reverse-involution", "un
 ITEMS_STR = ["a", "b", "B", "ab", ""]
 ITEMS_LST = [[], [1], [1, 2], [2], [1, 0], [1, -1]]
 ROW_NEEDLES = [[], [1], [1, 2], [1, 0]]
+# rows that differ only in their inner nesting (same leaves, same length): item equality must see the nesting (round 7)
+ITEMS_NESTED = [[[1, 2], [3]], [[1], [2, 3]], [0, [1]], [[0], 1], [[0, 1]], [0, 1]]
+NESTED_LAWS = ["uniquify", "reverse", "reverse-involution"]
+
+
+def _nested_ok(x, depth=0):
+    if isinstance(x, int) and not isinstance(x, bool):
+        return True
+    return isinstance(x, list) and depth < 3 and len(x) <= 3 and all(_nested_ok(y, depth + 1) for y in x)
 
 
 def _item_ok(x):
@@ -387,6 +396,14 @@ def _shard_items(rec, arg):
                         for nm in ("count", "contains", "find", "remove"):
                             for lazy in modes:
                                 _do(rec, nm, [xs, list(needle)], lazy, "exhaustive-string-and-list-items")
+    for L in range(1, maxlen + 1):
+        for tup in itertools.product(ITEMS_NESTED, repeat=L):
+            i += 1
+            if i % nshards != shard:
+                continue
+            for nm in NESTED_LAWS:
+                for lazy in (0, 1):
+                    _do(rec, nm, [copy.deepcopy(list(tup))], lazy, "exhaustive-nested-rows")
     if shard == 0:
         rec.sample({"xs": ["b", "a", "B"], "law": "grade-down", "a valid grading": [0, 1, 2]})
 
@@ -448,6 +465,8 @@ def replay(case):
         return check(name, args, False)
     if not isinstance(args[0], list):
         return None
+    if name in NESTED_LAWS and args[0] and len(args) == 1 and len(args[0]) <= 4 and all(isinstance(x, list) and _nested_ok(x) for x in args[0]) and not all(_item_ok(x) for x in args[0]):
+        return check(name, args, 1 if case.get("lazy") in (1, True) else 0)
     if name in ITEM_LAWS and args[0] and all(_item_ok(x) for x in args[0]) and len(args) == 1:
         return check(name, args, int(case.get("lazy") or 0) if case.get("lazy") in (0, 1, 6, 7) else 0)
     if name in ("count", "contains", "find", "remove") and len(args) == 2 and isinstance(args[1], list) and args[0] and all(_item_ok(x) and isinstance(x, list) for x in args[0]) and _item_ok(args[1]):
